@@ -186,6 +186,7 @@ ItemAt(g) ==
   ELSE IF g <= O6 THEN MatrixAt(g - O5)
   ELSE IF g <= O7 THEN AliasAt(g - O6)
   ELSE DupAt(g - O7)
+Histories == IF "VERIF_TIER" \in DOMAIN IOEnv /\ IOEnv.VERIF_TIER = "thorough" THEN 300 ELSE 40
 VARIABLE n
 INSTANCE GenBase
 =============================================================================
